@@ -9,6 +9,9 @@
 #include "battery.h"
 #include "sim/simdisk.h"
 #include <fcntl.h>
+#include <poll.h>
+#include <sys/wait.h>
+#include <sys/time.h>
 
 static FILE *g_out;
 static uint64_t g_run_index, g_run_seed;
@@ -26,7 +29,14 @@ struct Obs {
 static Obs g_obs;
 static std::map<std::string, long> g_stats; // fault / probe counters of the run in flight
 
+// watchdog on CPU time (robust against a loaded machine): a step that burns this much is a hang
+static void arm_watchdog(double seconds) {
+  struct itimerval it; memset(&it, 0, sizeof it);
+  it.it_value.tv_sec = (long)seconds; it.it_value.tv_usec = (long)((seconds - (long)seconds) * 1e6);
+  setitimer(ITIMER_VIRTUAL, &it, nullptr);
+}
 static void begin(const char *phase, const std::string &step) {
+  arm_watchdog(15.0);
   fprintf(g_out, "{\"begin\":%llu,\"phase\":\"%s\",\"step\":%s}\n", (unsigned long long)g_run_index, phase, jstr(step).c_str());
   fflush(g_out);
 }
@@ -34,18 +44,106 @@ static void begin(const char *phase, const std::string &step) {
 static std::string g_kinds; // kinds touched by the run, for evidence histograms
 static std::string g_shape; // history shape signature
 
+struct SymFailure { size_t call; std::string what; std::string report; };
+static std::vector<SymFailure> g_sym;   // symmetric failures (isolated reference calls that did not survive)
+
 static void emit(const std::string &verdict, const std::string &cls, const std::string &detail) {
   std::string st = "{";
   bool first = true;
   for (auto &kv : g_stats) { if (!first) st += ","; first = false; st += jstr(kv.first) + ":" + std::to_string(kv.second); }
   st += "}";
+  std::string sym = "[";
+  for (size_t i = 0; i < g_sym.size() && i < 12; i++) { if (i) sym += ","; sym += "{\"what\":" + jstr(g_sym[i].what) + ",\"report\":" + jstr(g_sym[i].report) + "}"; }
+  sym += "]";
   fprintf(g_out, "{\"run\":%llu,\"seed\":%llu,\"harness\":\"history\",\"mode\":%s,\"spec\":%s,\"verdict\":%s,\"class\":%s,\"detail\":%s,"
-                 "\"kinds\":%s,\"shape\":%s,\"obs_img\":\"%s\",\"obs_ans\":\"%s\",\"obs_bans\":\"%s\",\"obs_lans\":\"%s\",\"n_img\":%zu,\"n_ans\":%zu,\"stats\":%s}\n",
+                 "\"kinds\":%s,\"shape\":%s,\"obs_img\":\"%s\",\"obs_ans\":\"%s\",\"obs_bans\":\"%s\",\"obs_lans\":\"%s\",\"n_img\":%zu,\"n_ans\":%zu,\"stats\":%s,\"n_sym\":%zu,\"sym\":%s}\n",
           (unsigned long long)g_run_index, (unsigned long long)g_run_seed, jstr(g_mode).c_str(), jstr(g_spec).c_str(), jstr(verdict).c_str(), jstr(cls).c_str(), jstr(detail).c_str(),
           jstr(g_kinds).c_str(), jstr(g_shape).c_str(), hex64(g_obs.group("img:")).c_str(), hex64(g_obs.group("ans:")).c_str(), hex64(g_obs.group("bans:")).c_str(),
-          hex64(g_obs.group("lans:")).c_str(), g_obs.count("img:"), g_obs.count("ans:") + g_obs.count("bans:") + g_obs.count("lans:"), st.c_str());
+          hex64(g_obs.group("lans:")).c_str(), g_obs.count("img:"), g_obs.count("ans:") + g_obs.count("bans:") + g_obs.count("lans:"), st.c_str(), g_sym.size(), sym.c_str());
   if (g_verbose) for (auto &it : g_obs.items) fprintf(g_out, "  obs %s %s\n", it.first.c_str(), hex64(it.second).c_str());
   fflush(g_out);
+}
+
+// ---- reference executions in isolation (fork) ------------------------------------------------------
+// The tree under test has pure-input defects on many query paths.  A reference call that does not
+// survive is a *symmetric* failure: it says nothing about the property under test, and it must not
+// take the whole run with it.  So the reference pass of a script runs in a forked child (a copy-on-
+// write clone of this very process and object); a call that kills the child is recorded (C07
+// material), excluded, and the script is re-run without it.  The parent then issues only calls whose
+// reference execution survived -- a death of the parent on one of those is asymmetric.
+static bool g_in_child = false;
+struct Probe { ScriptRun run; std::vector<char> skip; };
+
+static Probe probe_script(StringDictionary *d, const std::vector<Call> &script, const std::string &ctx) {
+  Probe pr; pr.skip.assign(script.size(), 0);
+  ScriptRun acc; acc.digests.assign(script.size(), 0);
+  size_t resume = 0; int crashes_by_op[C_OPS] = {0};
+  for (int attempt = 0; attempt < 40; attempt++) {
+    int dp[2], ep[2];
+    if (pipe(dp) || pipe(ep)) { perror("pipe"); _exit(97); }
+    fflush(g_out);
+    pid_t pid = fork();
+    if (pid == 0) {
+      g_in_child = true; g_death_spec = nullptr;
+      close(dp[0]); close(ep[0]); dup2(ep[1], 2);
+      arm_watchdog(1.5);
+      ScriptRun r = run_script(d, script, &pr.skip, dp[1], resume);
+      (void)r;
+      uint32_t fin[2] = {0xF1F1F1F1u, 0}; ssize_t w = write(dp[1], fin, sizeof fin); (void)w;
+      _exit(0);
+    }
+    close(dp[1]); close(ep[1]);
+    std::string data, err; char buf[4096];
+    struct pollfd pf[2] = {{dp[0], POLLIN, 0}, {ep[0], POLLIN, 0}};
+    int open_ = 2;
+    while (open_ > 0) {
+      if (poll(pf, 2, 30000) <= 0) break;
+      for (int k = 0; k < 2; k++) if (pf[k].fd >= 0 && (pf[k].revents & (POLLIN | POLLHUP | POLLERR))) {
+        ssize_t n = read(pf[k].fd, buf, sizeof buf);
+        if (n <= 0) { close(pf[k].fd); pf[k].fd = -1; open_--; }
+        else { if (k == 0) data.append(buf, (size_t)n); else if (err.size() < 20000) err.append(buf, (size_t)n); }
+      }
+    }
+    for (int k = 0; k < 2; k++) if (pf[k].fd >= 0) close(pf[k].fd);
+    int status = 0; waitpid(pid, &status, 0);
+    // parse the child's report
+    ScriptRun &run = acc;
+    size_t off = 0; long inflight = -1; bool finished = false;
+    while (off + 8 <= data.size()) {
+      uint32_t magic, idx; memcpy(&magic, &data[off], 4); memcpy(&idx, &data[off + 4], 4);
+      if (magic == 0xB0B0B0B0u) { inflight = idx; off += 8; }
+      else if (magic == 0xD1D1D1D1u && off + 24 <= data.size()) {
+        uint64_t dig; uint32_t fl; memcpy(&dig, &data[off + 8], 8); memcpy(&fl, &data[off + 16], 4);
+        if (idx < script.size()) {
+          run.digests[idx] = dig;
+          if ((fl & 1) && run.pattern_changed_at < 0) run.pattern_changed_at = (int)idx;
+          if ((fl & 2) && run.protocol_bad_at < 0) run.protocol_bad_at = (int)idx;
+          if ((fl & 4) && run.fabricated_at < 0) run.fabricated_at = (int)idx;
+          if (fl & 8) run.threw++;
+        }
+        inflight = -1; off += 24;
+      }
+      else if (magic == 0xF1F1F1F1u) { finished = true; off += 8; }
+      else break;
+    }
+    if (finished) { pr.run = run; g_stats["probe_forks"] += attempt + 1; return pr; }
+    if (inflight < 0) { // died outside a call (iterator teardown): give up on this script
+      SymFailure f; f.call = script.size(); f.what = ctx + " teardown"; f.report = err.substr(0, 3000); g_sym.push_back(f);
+      pr.skip.assign(script.size(), 1); pr.run = run; return pr;
+    }
+    SymFailure f; f.call = (size_t)inflight; f.what = ctx + " " + call_str(script[(size_t)inflight]);
+    if (WIFSIGNALED(status) && WTERMSIG(status) == SIGVTALRM) f.report = "HANG (1.5 s of CPU time in one isolated reference call)";
+    else f.report = err.substr(0, 3000);
+    g_sym.push_back(f);
+    pr.skip[(size_t)inflight] = 1;
+    resume = (size_t)inflight + 1;
+    // an operation that keeps failing on this object is presumed unusable: stop probing it (bounds the forks)
+    int op = script[(size_t)inflight].op;
+    if (++crashes_by_op[op] >= 3) { for (size_t i = resume; i < script.size(); i++) if (script[i].op == op) { pr.skip[i] = 1; g_stats["calls_presumed_unsafe"]++; } }
+    // an unsafe open makes the handle's later draws meaningless but harmless (NOHANDLE in both passes)
+  }
+  pr.skip.assign(script.size(), 1);
+  return pr;
 }
 
 // ---- catalogue triples ---------------------------------------------------------------------------
@@ -138,12 +236,13 @@ static int run_c14_plan(C14Plan &pl, Prng &r, bool c16_checks) {
   g_kinds = kind_name(t.kind);
   size_t k = pl.scripts.size();
   g_shape = std::string(pl.src.loaded ? "loaded" : "built") + "/clients" + std::to_string(k);
-  std::vector<ScriptRun> ref(k);
+  std::vector<ScriptRun> ref(k); std::vector<std::vector<char>> skip(k);
   begin("ref", "isolated-reference");
   for (size_t c = 0; c < k; c++) {
     StringDictionary *d = make_object(t, pl.src, r);
     if (!d) { emit("precondition_failed", "object_unavailable", "build/load returned NULL for " + triple_str(t)); return 0; }
-    ref[c] = run_script(d, pl.scripts[c]);
+    Probe pr = probe_script(d, pl.scripts[c], std::string(kind_name(t.kind)) + (pl.src.loaded ? " loaded" : " built"));
+    ref[c] = pr.run; skip[c] = pr.skip;
     delete d;
     const ScriptRun &sr = ref[c];
     if (sr.pattern_changed_at >= 0) {
@@ -156,7 +255,7 @@ static int run_c14_plan(C14Plan &pl, Prng &r, bool c16_checks) {
     }
     // the same stateless query twice in one script
     for (size_t i = 0; i < pl.scripts[c].size(); i++) for (size_t j = i + 1; j < pl.scripts[c].size(); j++)
-      if (stateless(pl.scripts[c][i]) && same_call(pl.scripts[c][i], pl.scripts[c][j]) && sr.digests[i] != sr.digests[j]) {
+      if (!skip[c][i] && !skip[c][j] && stateless(pl.scripts[c][i]) && same_call(pl.scripts[c][i], pl.scripts[c][j]) && sr.digests[i] != sr.digests[j]) {
         emit("violation", "same_query_different_answer", "client " + std::to_string(c) + " calls " + std::to_string(i) + " and " + std::to_string(j) + " " + call_str(pl.scripts[c][i]) + " on " + triple_str(t));
         return 1;
       }
@@ -170,7 +269,9 @@ static int run_c14_plan(C14Plan &pl, Prng &r, bool c16_checks) {
     size_t c = (size_t)pl.order[step];
     if (pos[c] >= pl.scripts[c].size()) continue;
     const Call &call = pl.scripts[c][pos[c]];
+    if (skip[c][pos[c]]) { pos[c]++; g_stats["calls_skipped_symmetric"]++; continue; }
     CallResult cr = exec_call(shared, cs[c], call);
+    g_stats["calls_compared"]++;
     int open = 0; for (auto &s : cs) open += s.open_count();
     if (open > maxopen) maxopen = open;
     g_obs.add("ans:c" + std::to_string(c) + "." + std::to_string(pos[c]), cr.digest);
@@ -297,8 +398,14 @@ static int run_c08(Prng &r, int kind_forced, const std::string &ops_override) {
   g_shape = (with_battery ? "bat/" : "nobat/") + ops;
   begin("ref", "build");
   StringDictionary *A = build_dict(t.kind, t.ss.v, t.p);
-  ScriptRun b0;
-  if (with_battery) { begin("ref", "battery-before-save"); b0 = run_script(A, bat); for (size_t i = 0; i < b0.digests.size(); i++) g_obs.add("bans:" + std::to_string(i), b0.digests[i]); }
+  ScriptRun b0; std::vector<char> sk(bat.size(), 0);
+  if (with_battery) {
+    begin("ref", "battery-before-save");
+    Probe pr = probe_script(A, bat, std::string(kind_name(t.kind)) + " built");
+    b0 = pr.run; sk = pr.skip;
+    for (size_t i = 0; i < b0.digests.size(); i++) g_obs.add("bans:" + std::to_string(i), b0.digests[i]);
+    long safe = 0; for (char c : sk) safe += !c; g_stats["battery_calls_safe"] += safe; g_stats["battery_calls_total"] += (long)sk.size();
+  }
   begin("ref", "first-save");
   std::string img1 = save_image(A, (size_t)r.range(1, 4096));
   g_obs.add("img:first", dig_bytes(img1));
@@ -316,8 +423,8 @@ static int run_c08(Prng &r, int kind_forced, const std::string &ops_override) {
     case 'B': {
       if (!with_battery) break;
       begin("var", "battery-after-save");
-      ScriptRun b = run_script(A, bat);
-      for (size_t i = 0; i < b.digests.size(); i++) if (b.digests[i] != b0.digests[i]) {
+      ScriptRun b = run_script(A, bat, &sk);
+      for (size_t i = 0; i < b.digests.size(); i++) if (!sk[i] && b.digests[i] != b0.digests[i]) {
         emit("violation", "answers_changed_by_save", "C08.a " + triple_str(t) + " battery call " + std::to_string(i) + " " + call_str(bat[i]) + " answers differently after save"); return 1; }
       break;
     }
@@ -329,6 +436,8 @@ static int run_c08(Prng &r, int kind_forced, const std::string &ops_override) {
       Call o; o.op = openop; o.handle = 0; if (openop == C_EXTPREFIX) o.arg = q.prefixes[0];
       Call n1; n1.op = C_NEXT; n1.handle = 0; n1.count = (int)r.range(1, 4);
       Call n2; n2.op = C_NEXT; n2.handle = 0; n2.count = 1 << 20;
+      Call cl; cl.op = C_CLOSE; cl.handle = 0;
+      { std::vector<Call> scan = {o, n1, n2, cl}; begin("ref", "undisturbed-scan"); Probe ps = probe_script(A, scan, std::string(kind_name(t.kind)) + " built scan"); bool bad = false; for (char c : ps.skip) bad |= c != 0; if (bad) break; begin("var", "iterators-open-across-save"); }
       ClientState ra; CallResult a0 = exec_call(A, ra, o), a1 = exec_call(A, ra, n1), a2 = exec_call(A, ra, n2); ra.close_all();
       ClientState rb; CallResult c0 = exec_call(A, rb, o), c1 = exec_call(A, rb, n1);
       std::string img = save_image(A, (size_t)r.range(1, 4096));
@@ -358,8 +467,13 @@ static int run_c08(Prng &r, int kind_forced, const std::string &ops_override) {
       ChunkPolicy cp = ChunkPolicy::draw(r, f.size());
       LoadOut lo = load_image(t.kind, f, 0, cp, opt, generic);
       if (!lo.d) { emit("precondition_failed", "load_returned_null", triple_str(t)); return 0; }
-      ScriptRun bl;
-      if (with_battery) { begin("ref", "battery-on-loaded"); bl = run_script(lo.d, bat); for (size_t i = 0; i < bl.digests.size(); i++) g_obs.add("lans:" + tag + "." + std::to_string(i), bl.digests[i]); }
+      ScriptRun bl; std::vector<char> skl(bat.size(), 0);
+      if (with_battery) {
+        begin("ref", "battery-on-loaded");
+        Probe pr = probe_script(lo.d, bat, std::string(kind_name(t.kind)) + " loaded");
+        bl = pr.run; skl = pr.skip;
+        for (size_t i = 0; i < bl.digests.size(); i++) g_obs.add("lans:" + tag + "." + std::to_string(i), bl.digests[i]);
+      }
       begin("var", "save-of-loaded-object");
       std::string img2 = save_image(lo.d, (size_t)r.range(1, 4096));
       g_obs.add("img:" + tag + ".resave", dig_bytes(img2));
@@ -370,8 +484,8 @@ static int run_c08(Prng &r, int kind_forced, const std::string &ops_override) {
       if (img3 != img2) { emit("violation", "second_save_differs", "C08.b (loaded object) " + triple_str(t) + ": " + first_diff(img2, img3)); return 1; }
       if (with_battery) {
         begin("var", "battery-on-loaded-after-save");
-        ScriptRun b = run_script(lo.d, bat);
-        for (size_t i = 0; i < b.digests.size(); i++) if (b.digests[i] != bl.digests[i]) { emit("violation", "answers_changed_by_save", "C08.a (loaded object) " + triple_str(t) + " call " + call_str(bat[i])); return 1; }
+        ScriptRun b = run_script(lo.d, bat, &skl);
+        for (size_t i = 0; i < b.digests.size(); i++) if (!skl[i] && b.digests[i] != bl.digests[i]) { emit("violation", "answers_changed_by_save", "C08.a (loaded object) " + triple_str(t) + " call " + call_str(bat[i])); return 1; }
       }
       delete lo.d;
       begin("var", "load-of-resaved-image");
@@ -380,8 +494,8 @@ static int run_c08(Prng &r, int kind_forced, const std::string &ops_override) {
       if (!l2.d) { emit("violation", "resaved_image_does_not_load", "C08.e " + triple_str(t) + " load(save(load(img))) returned NULL; " + first_diff(img1, img2)); return 1; }
       if (with_battery) {
         begin("var", "battery-on-reloaded");
-        ScriptRun b = run_script(l2.d, bat);
-        for (size_t i = 0; i < b.digests.size(); i++) if (b.digests[i] != bl.digests[i]) { emit("violation", "resaved_image_not_equivalent", "C08.e " + triple_str(t) + " call " + call_str(bat[i]) + " answers differently after load(save(load(img)))"); return 1; }
+        ScriptRun b = run_script(l2.d, bat, &skl);
+        for (size_t i = 0; i < b.digests.size(); i++) if (!skl[i] && b.digests[i] != bl.digests[i]) { emit("violation", "resaved_image_not_equivalent", "C08.e " + triple_str(t) + " call " + call_str(bat[i]) + " answers differently after load(save(load(img)))"); return 1; }
       }
       delete l2.d;
       break;
@@ -400,7 +514,7 @@ static int run_c08(Prng &r, int kind_forced, const std::string &ops_override) {
 static int run_c06(Prng &r, int kind_forced) {
   int m = (int)r.range(1, 4);
   bool strong = r.chance(7, 10);
-  std::vector<Triple> ts; std::vector<std::string> imgs; std::vector<ScriptRun> bats; std::vector<std::vector<Call>> scripts; std::vector<uint> opts;
+  std::vector<Triple> ts; std::vector<std::string> imgs; std::vector<ScriptRun> bats; std::vector<std::vector<Call>> scripts; std::vector<uint> opts; std::vector<std::vector<char>> masks;
   g_kinds.clear();
   for (int j = 0; j < m; j++) {
     Triple t = draw_triple(r, j == 0 ? kind_forced : -1);
@@ -417,8 +531,14 @@ static int run_c06(Prng &r, int kind_forced) {
     scripts.push_back(battery_script(t.kind, t.p, q));
     begin("ref", std::string("build-") + kind_name(t.kind));
     StringDictionary *A = build_dict(t.kind, t.ss.v, t.p);
-    ScriptRun b;
-    if (strong) { begin("ref", std::string("battery-built-") + kind_name(t.kind)); b = run_script(A, scripts.back()); for (size_t i = 0; i < b.digests.size(); i++) g_obs.add("bans:" + std::to_string(j) + "." + std::to_string(i), b.digests[i]); }
+    ScriptRun b; masks.push_back(std::vector<char>(scripts.back().size(), 0));
+    if (strong) {
+      begin("ref", std::string("battery-built-") + kind_name(t.kind));
+      Probe pr = probe_script(A, scripts.back(), std::string(kind_name(t.kind)) + " built");
+      b = pr.run; masks.back() = pr.skip;
+      for (size_t i = 0; i < b.digests.size(); i++) g_obs.add("bans:" + std::to_string(j) + "." + std::to_string(i), b.digests[i]);
+      long safe = 0; for (char c : pr.skip) safe += !c; g_stats["battery_calls_safe"] += safe; g_stats["battery_calls_total"] += (long)pr.skip.size();
+    }
     begin("ref", std::string("save-") + kind_name(t.kind));
     imgs.push_back(save_image(A, (size_t)r.range(1, 4096)));
     g_obs.add("img:" + std::to_string(j), dig_bytes(imgs.back()));
@@ -434,7 +554,7 @@ static int run_c06(Prng &r, int kind_forced) {
       ChunkPolicy whole; whole.small = 0; whole.big = 0;
       LoadOut lo = load_image(t.kind, f, 0, whole, opts[(size_t)j], false);
       if (!lo.d) { emit("precondition_failed", "plain_load_returned_null", triple_str(t)); return 0; }
-      bats[(size_t)j] = run_script(lo.d, scripts[(size_t)j]);
+      { Probe pr = probe_script(lo.d, scripts[(size_t)j], std::string(kind_name(t.kind)) + " loaded"); bats[(size_t)j] = pr.run; masks[(size_t)j] = pr.skip; }
       for (size_t i = 0; i < bats[(size_t)j].digests.size(); i++) g_obs.add("bans:" + std::to_string(j) + "." + std::to_string(i), bats[(size_t)j].digests[i]);
       delete lo.d;
     }
@@ -469,9 +589,9 @@ static int run_c06(Prng &r, int kind_forced) {
       (void)hw_before;
       g_stats["tail_overread_checks"]++;
       begin("var", std::string("battery-loaded-") + kind_name(t.kind));
-      ScriptRun b = run_script(L, scripts[(size_t)j]);
+      ScriptRun b = run_script(L, scripts[(size_t)j], &masks[(size_t)j]);
       for (size_t i = 0; i < b.digests.size(); i++) g_obs.add("lans:" + std::to_string(j) + "." + std::to_string(i), b.digests[i]);
-      for (size_t i = 0; i < b.digests.size(); i++) if (b.digests[i] != bats[(size_t)j].digests[i]) {
+      for (size_t i = 0; i < b.digests.size(); i++) if (!masks[(size_t)j][i] && b.digests[i] != bats[(size_t)j].digests[i]) {
         emit("violation", "reloaded_answers_differ", std::string("C06 ") + triple_str(t) + " call " + std::to_string(i) + " " + call_str(scripts[(size_t)j][i]) + ": reloaded dictionary answers differently from the " + (strong ? "object that was saved" : "first load")); return 1; }
       begin("var", std::string("destroy-loaded-") + kind_name(t.kind));
       delete L;
@@ -491,8 +611,8 @@ static int run_c06(Prng &r, int kind_forced) {
       LoadOut lo = load_image(t.kind, f, 0, ChunkPolicy::draw(r, f.size()), o, generic);
       g_stats[generic ? "generic_loads" : "option_loads"]++;
       if (!lo.d) { emit("violation", generic ? "generic_loader_returned_null" : "loader_returned_null", std::string("C06 ") + (generic ? "StringDictionary::load" : "own loader") + " returned NULL for a valid image of " + triple_str(t) + " (opt " + std::to_string(o) + ")"); return 1; }
-      ScriptRun b = run_script(lo.d, scripts[(size_t)j]);
-      for (size_t i = 0; i < b.digests.size(); i++) if (b.digests[i] != bats[(size_t)j].digests[i]) {
+      ScriptRun b = run_script(lo.d, scripts[(size_t)j], &masks[(size_t)j]);
+      for (size_t i = 0; i < b.digests.size(); i++) if (!masks[(size_t)j][i] && b.digests[i] != bats[(size_t)j].digests[i]) {
         emit("violation", optlist.size() > 1 ? "load_options_disagree" : "reloaded_answers_differ", std::string("C06 ") + triple_str(t) + " opt " + std::to_string(o) + (generic ? " generic" : " own") + " call " + call_str(scripts[(size_t)j][i])); return 1; }
       delete lo.d;
     }
@@ -583,7 +703,7 @@ static int run_c16(uint64_t index, Prng &r, int sampled_per_block) {
 // driver
 // ====================================================================================================
 static int run_mode(const std::string &mode, uint64_t base, uint64_t index, const std::map<std::string, std::string> &ov) {
-  g_obs = Obs(); g_stats.clear(); g_kinds.clear(); g_shape.clear();
+  g_obs = Obs(); g_stats.clear(); g_kinds.clear(); g_shape.clear(); g_sym.clear();
   uint64_t tagv = mode == "C14" ? 0xC14 : mode == "C08" ? 0xC08 : mode == "C06" ? 0xC06 : mode == "C16" ? 0xC16 : 0xC07;
   g_run_seed = ov.count("runseed") ? strtoull(ov.at("runseed").c_str(), 0, 10) : mix64(mix64(base, tagv), index);
   Prng r; r.seed(g_run_seed);
